@@ -37,7 +37,7 @@ import (
 
 func main() {
 	Main("C19", check, func(c *Ctx) (string, []byte, error) { return dctab.Gen(c.Repo) },
-		func(c *Ctx) (string, []byte, error) { return dctab.GenProc(c.Repo) })
+		func(c *Ctx) (string, []byte, error) { return dctab.GenProc(c.Repo) }, stateGen)
 }
 
 // ---------------------------------------------------------------- lattice fields
@@ -958,8 +958,8 @@ func v2Knobs(rs renderSpec) (float64, float64, float64, int) {
 }
 
 // buildV2 makes a V2 value holding the settings of rs along the named path.  The cell count is an unexported
-// field: a literal or zero value has 0 cells (the generator then gives rs.Cells = 0, the reference is the constructor
-// called with 0 cells) and renders nothing.
+// field: a literal or zero value has 0 cells (the generator then gives rs.Cells = 0; no constructor-built value
+// to compare with) and renders nothing.
 func buildV2(path string, rs renderSpec, prev sdf.SDF3) (*dc.DualContouringV2, error) {
 	k0, k1, k2, k3 := v2Knobs(rs)
 	set := func(v *dc.DualContouringV2) {
@@ -1084,6 +1084,23 @@ func checkValue(r *Report, stratum string, vs valueSpec) {
 		}
 		var used, fresh []sdf.Triangle3
 		var pu, pf string
+		what := fmt.Sprintf("call %d (%s, %d cells) of a %s value with construction path %q", i+1, sp.Name, rs.Cells, rs.Renderer, vs.Path)
+		if !v1 && rs.Cells == 0 {
+			// a V2 value made without the constructor has no cell count: it may render nothing or panic (rejected),
+			// but what it does emit has to be a mesh of the shape on the lattice that value reports
+			used, pu = guarded(func() []sdf.Triangle3 { return renderV2With(val2, s) })
+			if pu == "" && len(used) > 0 {
+				nontrivial = true
+				cp := *val2
+				m := dc.VerifV2Buffers(&cp, s)
+				for _, f := range meshFaults(s, lattice{Min: m.BoxMin, Step: m.CellSize, Cells: m.Cells}, exact, sp.overEstimates(), used) {
+					r.Violate(key, what+": "+f, vs)
+				}
+			}
+			r.Coverage["value_calls_without_cell_count"], _ = addOne(r.Coverage["value_calls_without_cell_count"])
+			continue
+		}
+		r.Coverage["value_calls_compared"], _ = addOne(r.Coverage["value_calls_compared"])
 		if v1 {
 			used, pu = guarded(func() []sdf.Triangle3 { return renderV1With(val1, s, rs.Cells) })
 			fresh, pf = guarded(func() []sdf.Triangle3 { return renderV1(s, rs) })
@@ -1091,7 +1108,6 @@ func checkValue(r *Report, stratum string, vs valueSpec) {
 			used, pu = guarded(func() []sdf.Triangle3 { return renderV2With(val2, s) })
 			fresh, pf = guarded(func() []sdf.Triangle3 { return renderV2(s, rs) })
 		}
-		what := fmt.Sprintf("call %d (%s, %d cells) of a %s value with construction path %q", i+1, sp.Name, rs.Cells, rs.Renderer, vs.Path)
 		if len(fresh) > 0 {
 			nontrivial = true
 		}
@@ -1099,7 +1115,8 @@ func checkValue(r *Report, stratum string, vs valueSpec) {
 		// oracles of the property (state shared between values shows here)
 		var lat lattice
 		haveLat := false
-		if rs.inClass() && pf == "" && rs.Cells > 0 {
+		if rs.inClass() && pf == "" {
+			r.Coverage["value_calls_in_class"], _ = addOne(r.Coverage["value_calls_in_class"])
 			lat, haveLat = latticeOf(rs, s), true
 			if len(fresh) == 0 {
 				r.Violate(key, what+": the fresh constructor-built value gives no triangle at all", vs)
@@ -1891,7 +1908,7 @@ func check(c *Ctx, r *Report) error {
 		checkValue(r, vs.R.Renderer+"/"+vs.Path, vs)
 	}
 
-	r.Rule = "grid cases: sign assignments on small lattices (V2: 1..7 cells per axis, V1: octree depth 1..3, 4 in the long tiers; V1 also on non-cubic volumes of 2/4/8 (16) cells per axis inside the cubic octree, compared with the model over the octree pruned by Populate's filter, one third of them with the sign lattice extended over the padding beyond the volume so that the filter stops nodes that are NOT dead and the pruned model has to drop the same triangles - outside the class, correspondence only) in strata empty / single solid point / sparse / half / dense / full interior / checkerboard / union of boxes (all with outside boundary) and boundary-solid (outside the class, correspondence only), realised by a trilinear lattice field and rendered by the real code; the triangle list in cell indices is compared, in order, with the Gallina model evaluated on the same grid; non-trivial = at least one triangle, distinct by (lattice size, sign bits). render cases: sphere, box, rotated box, rounded box, box minus sphere, cylinder minus cylinder, union of spheres, each in an asymmetrically enlarged box, 6..27 (40) cells, V1 (lock on, no simplification, three rcond values) and V2 (FarAway in {0.25,0.4,0.499999,0.5}, CenterPush in {0.01,0.1,1}); non-trivial = produced triangles, distinct by full parameter record. aligned strata: boxes and spheres with faces/poles on lattice planes, dyadic and NON-dyadic steps (0.15, 0.05, 0.07, any two-decimal step), centred and translated, 8/16/32 cells, cubic and 2:1:1 volumes; for these and every render case the index-space mesh from the hooks must be closed and all voxels sharing a lattice corner must agree on its sign. v2-nopush / v2-knobs: V2 with CenterPush = 0 (or 1e-6..5), FarAway 0.1..0.5 and five ray-cast knob settings on boxes, cylinders, L prisms, CSG; non-lipschitz: spheres, boxes, rotated boxes, cylinders scaled by 0.3..0.6 per axis (or one axis only), bars twisted 2.5..4.5 rad over height 2, extrusions tapered to 0.2..0.5, V1 and V2 - the |f(v)| <= diagonal oracle is waived there (f is no distance bound), every other oracle applies. Every render case: all lattice points are evaluated and the index triangles compared as a multiset with one oriented quad per sign-changing interior lattice edge (skipped when a lattice value is within 1e-12 of zero; counted in reference_compared/skipped). v2-solver: 1..9 planes with unit normals (generic, three planes, axis-parallel with zero rows/columns with and without push, rank 1, rank 2, singular three-plane systems, guard threshold diag(1,1,1e-12 +- 1ulp), times 1e60..1e200 and 1e-3..1e-160), result compared bit for bit with the float model and required to be a finite point or the +Inf refusal (moderate scales). state cases: ONE renderer value renders a non-uniformly scaled shape twice (sdf.Scale3d: the field over-estimates distance, the V2 ray cast fails and the warn-once flags get set; counted in state_cases_with_raycast_fallback) and then a plain shape, compared bit for bit with itself and with a fresh renderer; V1 and V2, all settings."
+	r.Rule = "grid cases: sign assignments on small lattices (V2: 1..7 cells per axis, V1: octree depth 1..3, 4 in the long tiers; V1 also on non-cubic volumes of 2/4/8 (16) cells per axis inside the cubic octree, compared with the model over the octree pruned by Populate's filter, one third of them with the sign lattice extended over the padding beyond the volume so that the filter stops nodes that are NOT dead and the pruned model has to drop the same triangles - outside the class, correspondence only) in strata empty / single solid point / sparse / half / dense / full interior / checkerboard / union of boxes (all with outside boundary) and boundary-solid (outside the class, correspondence only), realised by a trilinear lattice field and rendered by the real code; the triangle list in cell indices is compared, in order, with the Gallina model evaluated on the same grid; non-trivial = at least one triangle, distinct by (lattice size, sign bits). render cases: sphere, box, rotated box, rounded box, box minus sphere, cylinder minus cylinder, union of spheres, each in an asymmetrically enlarged box, 6..27 (40) cells, V1 (lock on, no simplification, three rcond values) and V2 (FarAway in {0.25,0.4,0.499999,0.5}, CenterPush in {0.01,0.1,1}); non-trivial = produced triangles, distinct by full parameter record. aligned strata: boxes and spheres with faces/poles on lattice planes, dyadic and NON-dyadic steps (0.15, 0.05, 0.07, any two-decimal step), centred and translated, 8/16/32 cells, cubic and 2:1:1 volumes; for these and every render case the index-space mesh from the hooks must be closed and all voxels sharing a lattice corner must agree on its sign. v2-nopush / v2-knobs: V2 with CenterPush = 0 (or 1e-6..5), FarAway 0.1..0.5 and five ray-cast knob settings on boxes, cylinders, L prisms, CSG; non-lipschitz: spheres, boxes, rotated boxes, cylinders scaled by 0.3..0.6 per axis (or one axis only), bars twisted 2.5..4.5 rad over height 2, extrusions tapered to 0.2..0.5, V1 and V2 - the |f(v)| <= diagonal oracle is waived there (f is no distance bound), every other oracle applies. Every render case: all lattice points are evaluated and the index triangles compared as a multiset with one oriented quad per sign-changing interior lattice edge (skipped when a lattice value is within 1e-12 of zero; counted in reference_compared/skipped). v2-solver: 1..9 planes with unit normals (generic, three planes, axis-parallel with zero rows/columns with and without push, rank 1, rank 2, singular three-plane systems, guard threshold diag(1,1,1e-12 +- 1ulp), times 1e60..1e200 and 1e-3..1e-160), result compared bit for bit with the float model and required to be a finite point or the +Inf refusal (moderate scales). state cases: ONE renderer value renders a non-uniformly scaled shape twice (sdf.Scale3d: the field over-estimates distance, the V2 ray cast fails and the warn-once flags get set; counted in state_cases_with_raycast_fallback) and then a plain shape, compared bit for bit with itself and with a fresh renderer; V1 and V2, all settings. value cases: ONE renderer value obtained along a construction path - V1: constructor / struct literal / zero value / zero value with fields assigned / constructor with other settings then fields assigned / copy by value / copy of a value that has rendered / a used value whose RCond is assigned afterwards (0 = back to the documented default); V2: constructor / NewDualContouringDefault / constructor then the six exported fields assigned / copy / copy of a used value / used value then fields assigned / literal and zero value (no cell count: may render nothing, what it emits must pass the mesh oracles) - with settings V1 RCond in {0, 1e-3, 0.1} x LockVertices on/off x Simplify off (one in six: 0 or 0.01), V2 FarAway x CenterPush x ray-cast knobs, renders 1..2 (path = constructor: 3..4, half of them coming back to the first) shapes that all have the SAME sampled box (spheres, rotated boxes, boxes, rounded boxes, CSG in one box of about 4.2 units, 12..20 cells; V1 also with the cell count varied per call), so that the sampling lattices of consecutive calls coincide point for point; every call is compared bit for bit with a fresh value made by the constructor with the same settings, and inside the class (V1 lock on, no simplification; V2 clamp 0..1/2) the fresh value rendering right after the other value sampled the same lattice must pass every mesh oracle (closed, volume > 0, vertices in the box, in a crossing cell, within a cell diagonal); outside the class (lock off, simplification on) only the comparison is made; counted in value_calls_compared / value_calls_in_class / value_calls_without_cell_count."
 	r.Trusted = append(r.Trusted,
 		"hand model coq/Algo/DCModel.v of generateTriangles over the regenerated tables and code-embedded offsets, tied by differential execution on sign grids (cases_v2_*.v, exact order)",
 		"model of contourCellProc/FaceProc/EdgeProc/ProcessEdge (coq/Algo/DCModel.v): tied by translation - harness/dctab/proc.go translates the four Go functions from the AST of the current dc3v1.go (Generated/DCProc.v) and coq/Algo/DCProcEq.v proves them equal to the model for every octree, direction, buffer and fuel (C19_TRANSL_*); trusted there: the translator and the meaning of its constructs (coq/Algo/DCProcLib.v: ints as Z without overflow, arrays/slices as lists, no panics, recursion bounded by fuel), and the octree the model instantiates the code with (level/offset handles for the full-depth octree of Populate: a size-1 node is a Leaf iff its corner mask is mixed, else Internal with nil children) - that instantiation and Populate/computeOctreeLeaf are tied by differential execution (cases_v1_*.v, exact order)",
@@ -1899,10 +1916,11 @@ func check(c *Ctx, r *Report) error {
 		"float model of the V2 vertex solver determinant/solve3x3/leastSquares (coq/Geo/DCSolve.v) compared bit for bit through the hook (cases_ls_*.v)",
 		"hooks render/dc/verif_hooks_c19.go (V1: repeat the first lines of Render, then the real generateVertexIndices/contourCellProc; V2: real placeVertices/generateTriangles on a vertex buffer holding cell indices)",
 		"QEF / SVD (gonum), ray cast and bisection are oracles: only the containment of their result is checked (direct oracle on every vertex) and proved for the lock/clamp step",
-		"Go oracles of this harness: directed-edge balance after identifying bit-equal vertices, signed volume, |f(v)| <= cell diagonal, vertex in a lattice cell with a sign change")
+		"Go oracles of this harness: directed-edge balance after identifying bit-equal vertices, signed volume, |f(v)| <= cell diagonal, vertex in a lattice cell with a sign change",
+		"value cases: the constructor called with the settings is taken as the definition of what a renderer value holding those settings does (RCond = 0 means the documented default for every construction path); independence of the construction path and of the history of the value is sampled, not proved")
 	r.Assumptions = append(r.Assumptions,
 		"the SDF is deterministic and outside (>= 0) on the boundary of the sampled box and beyond (V1 samples the padding of the power-of-two octree outside the box)",
-		"V2 drops both triangles of a quad when two of its vertices coincide exactly (Degenerate(0)); the closedness theorem is about the index mesh, the position mesh is checked by the direct oracle on every render case",
+		"V2 drops the triangles of a quad that have two exactly equal vertices (Degenerate(0); since fix 97a592c only those - before, the whole quad, which left holes where two neighbouring vertices were clamped to the same lattice corner: corpus renders twist / scaled cylinder with CenterPush 0); a dropped degenerate triangle has a self loop and an edge with its own reverse, so the balance after identification is unchanged; the closedness theorem is about the index mesh, the position mesh is checked by the direct oracle on every render case",
 		"V1 octree traversal: proved equal to the dual mesh for EVERY depth and every sign assignment on the full-depth cubic octree (v1_traversal), and unchanged, triangle by triangle, when the nodes stopped by Populate's out-of-volume filter are removed as long as the field is outside beyond the volume (C19_v1_prune, C19_v1_populate_filter_dead; the filter predicate populate_pruned is a hand copy of the Go condition, tied by differential execution incl. cases where it stops live nodes); the models are compared with the real code at depth 1..4; simplified octrees (Simplify >= 0) are outside the theorem and covered by the cell-exhaustive reference on every render case")
 	return nil
 }
